@@ -553,11 +553,15 @@ def run(ctx, res):
         raise AnalysisBroken("Tiff::set not found")
     for g in sets:
         adopt.rule_set_adopts(prog, res, g)
+        res.guard(adopt.rule_set_adopts_all, prog, res, g)
+    for g in prog.all_funcs():
+        if g.name.split("::")[-1] == "side_by_side_tiff_set":
+            res.guard(adopt.rule_set_adopts_all, prog, res, g)
     res.guard(tiff_layout, prog, res)
     res.guard(metadata_file, prog, res)
     res.guard(string_section, prog, res)
     res.require_min("R-TIFF-LAYOUT", 18)
-    res.require_min("R-SET-ADOPTS", 1)
+    res.require_min("R-SET-ADOPTS", 5)
     res.require_min("FINALISE-SIM", 2)
     res.require_min("T-EXH", 6)
     res.require_min("T-CONST", 2)
